@@ -28,13 +28,45 @@ static std::vector<PCfg> all_cfgs() {  // {IG,DG} x {SAX2,DOM} x {always,auto}
 static Config mk(const PCfg& p) { Config c; c.scanner = p.scanner; c.api = p.api; c.val = p.val; c.ns = false; return c; }
 static std::string cfgname(const PCfg& p) { return mk(p).str(); }
 
-// KNOWN_DEFECTS: exact cases temporarily skipped so that the rest of the space can be explored (must stay empty unless a genuine
-// library defect has been reported in docs/c07.md).  Entries are "<space>:<case-key>" strings tested by known_defect().
-static const char* KNOWN_DEFECTS[] = {nullptr};
-static bool known_defect(const std::string& key) {
-    for (const char** p = KNOWN_DEFECTS; *p; p++) if (key == *p) return true;
+// KNOWN_DEFECTS: genuine library defects found by this check (details, repro and suggested patches in docs/c07.md).  The cases that
+// hit exactly these defects are skipped (and counted as known_defect_skipped:<id>) so that the rest of the space is explored and the
+// check can exit 0; run the driver with --strict 1 to disable the list and see them fail.  A case is only skipped when the
+// *defect-tolerant* variant of the reference explains the observed verdict; everything else is still compared strictly.
+struct KnownDefect { const char* id; const char* what; };
+static const KnownDefect KNOWN_DEFECTS[] = {
+    {"KD1-auto-skips-declaration-VCs",
+     "Val_Auto with a DOCTYPE: validity constraints checked while the DTD is scanned (ID attribute default, duplicate element declaration, "
+     "duplicate name in mixed content, PE nesting) are only reported when the scheme is Val_Always (DTDScanner tests getValidationScheme()==Val_Always)"},
+    {"KD2-enumerated-value-list-accepted",
+     "a value consisting of several listed tokens ('en1 en2', 'n1 n2') is accepted for an enumeration / NOTATION attribute "
+     "(DTDValidator::validateAttrValue treats Notation and Enumeration as multi-valued)"},
+    {"KD3-charref-whitespace-splits-tokens",
+     "a TAB/LF/CR produced by a character reference inside an IDREFS/ENTITIES/NMTOKENS value is treated as a token separator "
+     "(validateAttrValue -> XMLString::collapseWS) although only #x20 separates tokens after normalisation"},
+    {"KD4-duplicate-notation-is-warning", "VC Unique Notation Name: a second <!NOTATION n ...> only yields a warning"},
+    {"KD5-ext-subset-ending-in-PE-reference",
+     "an external subset whose last construct is a reference to an internal parameter entity: ReaderMgr::popReader silently pops the exhausted "
+     "external-subset reader (ignoring its throw-at-end flag), the DTD scanner runs into the document and reports a fatal error"},
+    {"KD6-standalone-normalisation-trailing-or-inner",
+     "standalone='yes' + externally declared tokenized attribute: only leading white space is reported (NoAttNormForStandalone); trailing or "
+     "repeated inner spaces change the value as well but go unreported (scanAttValue)"},
+    {"KD7-empty-entity-in-EMPTY-element", "an element declared EMPTY containing a reference to an entity with empty replacement text is accepted"},
+};
+static bool g_strict = false;
+// returns true when the case must be skipped as a known defect (and counts it)
+static bool kd_skip(Ctx& c, const std::string& id) {
+    if (g_strict || id.empty()) return false;
+    for (auto& k : KNOWN_DEFECTS)
+        if (id == k.id) { c.count(std::string("known_defect_skipped:") + k.id); return true; }
     return false;
 }
+static const char* KD1 = "KD1-auto-skips-declaration-VCs";
+static const char* KD2 = "KD2-enumerated-value-list-accepted";
+static const char* KD3 = "KD3-charref-whitespace-splits-tokens";
+static const char* KD4 = "KD4-duplicate-notation-is-warning";
+static const char* KD5 = "KD5-ext-subset-ending-in-PE-reference";
+static const char* KD6 = "KD6-standalone-normalisation-trailing-or-inner";
+static const char* KD7 = "KD7-empty-entity-in-EMPTY-element";
 
 // ====================================================================================================== subset placement
 enum Place { P_INT = 0, P_EXT, P_SPLIT, P_PEINT, P_PEEXT, P_INCLUDE, P_INCLUDE_PE, P_COUNT };
@@ -170,6 +202,7 @@ struct Model {
 static std::vector<Model> MODELS;
 static int g_k = 3, g_alpha = 8;
 static unsigned g_cfgmask = 0xff;
+static bool g_cfgrotate = false;  // run each model under ONE configuration of the mask, chosen round-robin by model index
 static std::vector<int> g_places = {P_INT};
 
 static void add_specials() {
@@ -315,13 +348,15 @@ static void run_cm(uint64_t idx, Ctx& c) {
     const std::string& body = BODY;
     std::vector<PCfg> cfgs = all_cfgs();
     for (int place : g_places) {
-        for (size_t ci = 0; ci < cfgs.size(); ci++) {
-            if (!(g_cfgmask >> ci & 1)) continue;
+        std::vector<size_t> active;
+        for (size_t ci = 0; ci < cfgs.size(); ci++) if (g_cfgmask >> ci & 1) active.push_back(ci);
+        if (g_cfgrotate && !active.empty()) active = {active[idx % active.size()]};
+        for (size_t ci : active) {
             const PCfg& pc = cfgs[ci];
             g_vfs->clear();
             ParseIO io;
             io.bytes = "<?xml version=\"1.0\"?>" + doctype("r", cm_decls(m), place, "<!ELEMENT e (d,d,d)>") + "<r>\n" + body + "</r>\n";
-            bool wantMsg = c.verbose || (ci == 0 && place == P_INT);
+            bool wantMsg = c.verbose || (ci == active[0] && place == P_INT);
             BatchResult r = parse_batch(mk(pc), io, wantMsg);
             c.count("parses_batch");
             std::string where = cfgname(pc) + " place=" + PlaceName[place];
@@ -340,7 +375,7 @@ static void run_cm(uint64_t idx, Ctx& c) {
                     continue;
                 }
                 bad[i] = 1;
-                if (ci == 0 && place == P_INT) c.count("err:" + slug(ei.msg));
+                if (ci == active[0] && place == P_INT) c.count("err:" + slug(ei.msg));
             }
             int reported = 0;
             for (size_t i = 0; i < expect.size(); i++) {
@@ -356,7 +391,6 @@ static void run_cm(uint64_t idx, Ctx& c) {
                                      ",\"single_errors\":" + jstr(detail);
                 if (sv < 0) c.violation("fatal-on-wellformed", fields);
                 else if ((sv == 0) != (bool)expect[i]) {
-                    if (known_defect("cm:" + m.spec + ":" + word_str(INST[i].w))) { c.count("known_defect_skipped"); continue; }
                     c.violation(expect[i] ? "valid-instance-rejected" : "invalid-instance-accepted", fields);
                 } else c.violation("verdict-depends-on-batch-context", fields);
                 if (++reported >= 3) break;
@@ -450,7 +484,10 @@ static void run_cmx(uint64_t idx, Ctx& c) {
         if (!r.ok()) { c.violation("fatal-on-wellformed", fields); continue; }
         bool obs = r.errs == 0;
         if (obs != exp) {
-            if (known_defect("cmx:" + m.spec + ":" + desc)) { c.count("known_defect_skipped"); continue; }
+            // KD7: EMPTY element whose only content is references to the empty entity
+            bool onlyEmptyEnt = m.kind == 1 && !w.empty();
+            for (int t : w) if (XTOK[t].cls != 6) onlyEmptyEnt = false;
+            if (onlyEmptyEnt && !exp && kd_skip(c, KD7)) continue;
             c.violation(exp ? "valid-instance-rejected" : "invalid-instance-accepted", fields);
         }
         if (c.verbose) printf("%s %s expected=%d observed=%d %s\n", cfgname(pc).c_str(), io.bytes.c_str(), exp, obs, errs_of(r).c_str());
@@ -471,10 +508,22 @@ struct DocCase {
     std::string fixedDoctype;  // when non-empty, used verbatim (VFS content prepared by the caller through vfsFiles)
     std::vector<std::pair<std::string, std::string>> vfsFiles;
     std::string label;
+    std::string kd;            // id of the known defect that explains "expected invalid, observed valid" (or, for KD5, a fatal error)
+    int kdVal = 0;             // 0: under every validation scheme, 2: only under Val_Auto
+    std::string reason;        // short slug naming the violated constraint (appended to the violation kind)
     std::string ignoredDecl = "<!ATTLIST e zz CDATA #REQUIRED>";
 };
 static unsigned g_placemask = 0x7f;
 static bool g_onoff = true;
+static bool g_placerotate = false;  // single-document spaces: besides 'internal', each case runs under ONE other placement (round-robin by case index)
+static std::string g_dumpViol;  // development aid: append "kind<TAB>label<TAB>config" of every document-level violation to this file
+static void dump_viol(const std::string& kind, const std::string& label, const std::string& cfg) {
+    if (g_dumpViol.empty()) return;
+    FILE* f = fopen(g_dumpViol.c_str(), "a");
+    if (!f) return;
+    fprintf(f, "%s\t%s\t%s\n", kind.c_str(), label.c_str(), cfg.c_str());
+    fclose(f);
+}
 
 static const std::set<std::string> DROP_NONE = {};
 
@@ -483,6 +532,7 @@ static void run_doc(const DocCase& dc, Ctx& c, const std::string& key) {
     std::vector<std::string> refDump;  // (IG,SAX2,val=1,internal) dump for placement comparison of content
     for (int place = 0; place < P_COUNT; place++) {
         if (place != P_INT && (!dc.placements || !(g_placemask >> place & 1))) continue;
+        if (place != P_INT && g_placerotate && place != 1 + (int)(c.idx % (P_COUNT - 1))) continue;
         for (int sc : {IG, DG}) for (int api : {SAX2, DOM}) {
             // placements other than internal: two diagonal configurations only
             if (place != P_INT && !((sc == IG && api == SAX2) || (sc == DG && api == DOM))) continue;
@@ -506,20 +556,26 @@ static void run_doc(const DocCase& dc, Ctx& c, const std::string& key) {
                 if (val == 0) {
                     // validation off: never a validity error; fatal only when the case is allowed to be not well-formed
                     if (r.errs) c.violation("validity-error-with-validation-off", fields);
-                    if (!r.ok() && dc.expect != 2) c.violation("fatal-on-wellformed", fields);
+                    if (!r.ok() && dc.expect != 2 && !(dc.kd == KD5 && kd_skip(c, KD5))) c.violation("fatal-on-wellformed", fields);
                     dumpOff = project(r.d.lines, DROP_NONE, true);
                     continue;
                 }
                 if (!r.ok()) {
-                    if (dc.expect != 2) c.violation("fatal-on-wellformed", fields);
-                    else c.count("observed_fatal_where_allowed");
+                    if (dc.expect == 2) c.count("observed_fatal_where_allowed");
+                    else if (dc.kd == KD5 && kd_skip(c, KD5)) {}
+                    else c.violation("fatal-on-wellformed", fields);
                     continue;
                 }
                 bool obsValid = r.errs == 0;
                 bool expValid = dc.expect == 0;
                 if (obsValid != expValid) {
-                    if (known_defect(key)) c.count("known_defect_skipped");
-                    else c.violation(expValid ? "valid-document-rejected" : "invalid-document-accepted", fields);
+                    if (!expValid && !dc.kd.empty() && (dc.kdVal == 0 || dc.kdVal == val) && kd_skip(c, dc.kd)) {}
+                    else {
+                        std::string kind = std::string(expValid ? "valid-document-rejected" : "invalid-document-accepted") + (dc.reason.empty() ? "" : "/" + dc.reason) +
+                                           (val == 2 ? "/auto" : "");
+                        c.violation(kind, fields);
+                        dump_viol(kind, dc.label, where);
+                    }
                 } else if (place == P_INT && sc == IG && api == SAX2 && val == 1)
                     for (auto& e : r.errors) { ErrInfo ei = parse_err(e); if (ei.sev == 'E') c.count("err:" + slug(ei.msg)); }
                 // on/off: identical events (attribute defaults, normalised values, entity expansion) modulo ignorable-whitespace flag
@@ -566,10 +622,16 @@ static const int NAVAL = sizeof(AVAL) / sizeof(AVAL[0]);
 static const std::set<std::string> DOC_IDS = {"i1", "i2"};
 static const std::set<std::string> UNPARSED = {"u1", "u2"};
 
-// lexical + declaration-independent semantic validity of a normalised value for a type; ids = all IDs present in the document
-// (excluding this attribute); isDefaultDecl: only the syntactic constraints apply (VC Attribute Default Value Syntactically Correct)
-static bool value_ok(int type, const std::string& nv, bool isDefaultDecl) {
+// Validity of a normalised value for a type (XML 1.0 section 3.3.1).  isDefaultDecl: only the syntactic constraints apply
+// (VC Attribute Default Value Syntactically Correct).  tolerant: the variant of the rules that models known defects KD2/KD3
+// (used only to decide whether an observed acceptance is explained by those defects, never to relax the expectation).
+static bool value_ok(int type, std::string nv, bool isDefaultDecl, bool tolerant = false) {
     std::vector<std::string> toks;
+    bool multi = type == A_IDREFS || type == A_ENTITIES || type == A_NMTOKENS;
+    if (tolerant && (multi || type == A_NOTATION || type == A_ENUM)) {  // KD3: any white space character separates tokens
+        for (char& ch : nv) if (ch == '\t' || ch == '\n' || ch == '\r') ch = ' ';
+        nv = normalize_att(nv, false);
+    }
     switch (type) {
     case A_CDATA: return true;
     case A_ID: return is_name(nv) && (isDefaultDecl || !DOC_IDS.count(nv));
@@ -588,21 +650,34 @@ static bool value_ok(int type, const std::string& nv, bool isDefaultDecl) {
         if (!split_tokens(nv, toks)) return false;
         for (auto& t : toks) if (!is_nmtoken(t)) return false;
         return true;
-    case A_NOTATION: return nv == "n1" || nv == "n2";
-    default: return nv == "en1" || nv == "en2";
+    case A_NOTATION:
+    default: {
+        const char* l1 = type == A_NOTATION ? "n1" : "en1"; const char* l2 = type == A_NOTATION ? "n2" : "en2";
+        if (!tolerant) return nv == l1 || nv == l2;  // "MUST match one of the (notation) names / Nmtoken tokens in the declaration"
+        if (!split_tokens(nv, toks)) return false;   // KD2: a list of listed tokens
+        for (auto& t : toks) if (t != l1 && t != l2) return false;
+        return true;
+    }
     }
 }
 
-static const uint64_t N_DEF = 2 + 2 * (uint64_t)NAVAL;  // #REQUIRED, #IMPLIED, #FIXED dv..., dv...
-static const uint64_t N_PRES = 1 + (uint64_t)NAVAL;     // absent, value...
+static std::vector<int> DVS;  // indices into AVAL used as declared default values (all, or the quick subset)
+static uint64_t N_DEF = 0;    // #REQUIRED, #IMPLIED, #FIXED dv..., dv...
+static const uint64_t N_PRES = 1 + (uint64_t)NAVAL;  // absent, value...
+static void init_attr(bool quickDefaults) {
+    static const std::set<std::string> quick = {"", "a1", "1a", "a!b", "a1 b1", " a1", "a1&#9;b1", "u1", "p1", "u1 u2", "n1", "n3", "i1", "i9", "en1", "en3", "en1 en2"};
+    for (int i = 0; i < NAVAL; i++) if (!quickDefaults || quick.count(AVAL[i])) DVS.push_back(i);
+    N_DEF = 2 + 2 * (uint64_t)DVS.size();
+}
 static uint64_t attr_total() { return 10 * N_DEF * N_PRES; }
 
 static DocCase attr_case(uint64_t idx, std::string& label) {
     int type = (int)(idx / (N_DEF * N_PRES));
     uint64_t rem = idx % (N_DEF * N_PRES);
     int def = (int)(rem / N_PRES), pres = (int)(rem % N_PRES);
-    int defKind = def == 0 ? 0 : def == 1 ? 1 : (def - 2) < NAVAL ? 2 : 3;  // 0 REQUIRED 1 IMPLIED 2 FIXED 3 default
-    const char* dv = defKind >= 2 ? AVAL[(def - 2) % NAVAL] : nullptr;
+    int nd = (int)DVS.size();
+    int defKind = def == 0 ? 0 : def == 1 ? 1 : (def - 2) < nd ? 2 : 3;  // 0 REQUIRED 1 IMPLIED 2 FIXED 3 default
+    const char* dv = defKind >= 2 ? AVAL[DVS[(def - 2) % nd]] : nullptr;
     const char* v = pres ? AVAL[pres - 1] : nullptr;
     bool cdata = type == A_CDATA;
     std::string defText = defKind == 0 ? "#REQUIRED" : defKind == 1 ? "#IMPLIED" : defKind == 2 ? std::string("#FIXED \"") + dv + "\"" : std::string("\"") + dv + "\"";
@@ -612,25 +687,39 @@ static DocCase attr_case(uint64_t idx, std::string& label) {
                 "<!ATTLIST t id ID #IMPLIED>", std::string("<!ATTLIST e x ") + ATYPE[type] + " " + defText + ">"};
     dc.body = std::string("<r><t id=\"i1\"/><t id=\"i2\"/><e") + (v ? std::string(" x=\"") + v + "\"" : "") + "/></r>";
     // ---- reference (XML 1.0 section 3.3)
-    bool valid = true;
     std::string why;
-    if (type == A_ID && defKind >= 2) { valid = false; why += "ID-attribute-default;"; }  // VC ID Attribute Default
-    std::string ndv;
-    if (dv) {
-        ndv = normalize_att(dv, cdata);
-        if (!value_ok(type, ndv, true)) { valid = false; why += "default-not-syntactically-correct;"; }  // VC Attribute Default Value Syntactically Correct
-    }
-    if (!v) {
-        if (defKind == 0) { valid = false; why += "required-missing;"; }  // VC Required Attribute
-        else if (defKind >= 2 && !value_ok(type, ndv, false)) { valid = false; why += "defaulted-value-invalid;"; }  // VC IDREF / Entity Name on the value in effect
-    } else {
-        std::string nv = normalize_att(v, cdata);
-        if (!value_ok(type, nv, false)) { valid = false; why += "value-invalid-for-type;"; }
-        if (defKind == 2 && nv != ndv) { valid = false; why += "fixed-mismatch;"; }  // VC Fixed Attribute Default
+    auto verdict = [&](bool tolerantTokens, bool ignoreIdDefault, std::string* whyOut) {
+        bool valid = true;
+        auto fail = [&](const char* r) { valid = false; if (whyOut) { *whyOut += r; *whyOut += ';'; } };
+        if (type == A_ID && defKind >= 2 && !ignoreIdDefault) fail("ID-attribute-default");  // VC ID Attribute Default
+        std::string ndv;
+        if (dv) {
+            ndv = normalize_att(dv, cdata);
+            if (!value_ok(type, ndv, true, tolerantTokens)) fail("default-not-syntactically-correct");  // VC Attribute Default Value Syntactically Correct
+        }
+        if (!v) {
+            if (defKind == 0) fail("required-missing");  // VC Required Attribute
+            else if (defKind >= 2 && !value_ok(type, ndv, false, tolerantTokens)) fail("defaulted-value-invalid");  // VC IDREF / Entity Name on the value in effect
+        } else {
+            std::string nv = normalize_att(v, cdata);
+            if (!value_ok(type, nv, false, tolerantTokens)) fail("value-invalid-for-type");
+            std::string cv = nv, cdv = ndv;
+            if (tolerantTokens && (type == A_IDREFS || type == A_ENTITIES || type == A_NMTOKENS)) {  // KD3 also applies to the stored default
+                for (std::string* p : {&cv, &cdv}) { for (char& ch : *p) if (ch == '\t' || ch == '\n' || ch == '\r') ch = ' '; *p = normalize_att(*p, false); }
+            }
+            if (defKind == 2 && cv != cdv) fail("fixed-mismatch");  // VC Fixed Attribute Default
+        }
+        return valid;
+    };
+    bool valid = verdict(false, false, &why);
+    if (!valid) {
+        if (verdict(true, false, nullptr)) { dc.kd = (type == A_NOTATION || type == A_ENUM) ? KD2 : KD3; dc.kdVal = 0; }
+        else if (verdict(true, true, nullptr)) { dc.kd = KD1; dc.kdVal = 2; }
     }
     dc.expect = valid ? 0 : 1;
     label = std::string(ATYPE[type]) + " " + defText + " " + (v ? std::string("x=\"") + v + "\"" : "absent") + " => " + (valid ? "valid" : why);
     dc.label = label;
+    dc.reason = std::string(ATYPE[type]).substr(0, std::string(ATYPE[type]).find(' ')) + ":" + why.substr(0, why.find(';'));
     return dc;
 }
 static void run_attr(uint64_t idx, Ctx& c) {
@@ -703,7 +792,9 @@ static void init_vc() {
     vc_add("attribute-undeclared-on-element-without-attlist", {EL_R, EL_E, "<!ATTLIST r x CDATA #IMPLIED>"}, "<r><e x=\"1\"/></r>", 1);
     vc_add("attlist-for-undeclared-element-unused", {EL_R, "<!ATTLIST zz x CDATA #IMPLIED>"}, "<r/>", 0);  // only a warning may be issued
     vc_add("unique-element-type-declaration", {EL_R, EL_E, "<!ELEMENT e EMPTY>"}, "<r><e/></r>", 1);
+    VC.back().kd = KD1; VC.back().kdVal = 2;
     vc_add("no-duplicate-types-in-mixed", {EL_R, EL_A, "<!ELEMENT e (#PCDATA|a|a)*>"}, "<r><e/></r>", 1);
+    VC.back().kd = KD1; VC.back().kdVal = 2;
     vc_add("mixed-ok", {EL_R, EL_A, "<!ELEMENT e (#PCDATA|a)*>"}, "<r><e>x<a/>y</e></r>", 0);
     vc_add("one-id-per-element-type", {EL_R, EL_E, "<!ATTLIST e i ID #IMPLIED j ID #IMPLIED>"}, "<r><e/></r>", 1);
     vc_add("one-id-per-element-type-two-attlists", {EL_R, EL_E, "<!ATTLIST e i ID #IMPLIED>", "<!ATTLIST e j ID #IMPLIED>"}, "<r><e/></r>", 1);
@@ -718,6 +809,7 @@ static void init_vc() {
     vc_add("notation-declared-for-unparsed-entity", {EL_R, "<!ENTITY u SYSTEM \"u.bin\" NDATA n9>"}, "<r/>", 1);
     vc_add("unparsed-entity-ok", {EL_R, "<!NOTATION n1 PUBLIC \"pub\">", "<!ENTITY u SYSTEM \"u.bin\" NDATA n1>", "<!ATTLIST r x ENTITY #IMPLIED>"}, "<r x=\"u\"/>", 0);
     vc_add("unique-notation-name", {EL_R, "<!NOTATION n1 SYSTEM \"a\">", "<!NOTATION n1 SYSTEM \"b\">"}, "<r/>", 1);
+    VC.back().kd = KD4;
     vc_add("first-attribute-declaration-binds", {EL_R, EL_E, "<!ATTLIST e x CDATA #IMPLIED>", "<!ATTLIST e x ID #REQUIRED>"}, "<r><e/></r>", 0);
     vc_add("first-entity-declaration-binds", {EL_R, "<!ENTITY g \"<r/>\">", "<!ENTITY g \"text\">", "<!ELEMENT e (r)>"}, "<r><e>&g;</e></r>", 0);
     vc_add("entity-declared-vc", {EL_R, "<!ENTITY % pe \"\">", "%pe;"}, "<r>&nope;</r>", 2);  // with a PE reference in the subset this is a VC, not a WFC
@@ -736,7 +828,9 @@ static void init_vc() {
         dc.fixedDoctype = "<!DOCTYPE r SYSTEM \"x.dtd\">";
         dc.vfsFiles = {{"/v/x.dtd", "<!ELEMENT a EMPTY><!ELEMENT b EMPTY><!ENTITY % p \"(a,b\"><!ELEMENT r %p;)>"}};
         dc.body = "<r><a/><b/></r>";
+        dc.kd = KD1; dc.kdVal = 2;
         VC.push_back(dc);
+        dc.kd = ""; dc.kdVal = 0;
         dc.label = "proper-group-pe-nesting-ok"; dc.expect = 0;
         dc.vfsFiles = {{"/v/x.dtd", "<!ELEMENT a EMPTY><!ELEMENT b EMPTY><!ENTITY % p \"(a,b)\"><!ELEMENT r %p;>"}};
         VC.push_back(dc);
@@ -745,18 +839,27 @@ static void init_vc() {
         dc.body = "<r/>";
         VC.push_back(dc);
         dc.label = "proper-conditional-section-pe-nesting-ok"; dc.expect = 0;
-        dc.vfsFiles = {{"/v/x.dtd", "<!ENTITY % p \"<![INCLUDE[<!ELEMENT r ANY>]]>\">%p;"}};
+        dc.vfsFiles = {{"/v/x.dtd", "<!ENTITY % p \"<![INCLUDE[<!ELEMENT r ANY>]]>\">%p;\n"}};
+        VC.push_back(dc);
+        dc.label = "external-subset-ends-with-internal-pe-reference"; dc.expect = 0; dc.kd = KD5;
+        dc.vfsFiles = {{"/v/x.dtd", "<!ENTITY % p \"<!ELEMENT r ANY>\">%p;"}};
+        VC.push_back(dc);
+        dc.label = "external-subset-ends-with-internal-pe-reference-then-newline"; dc.expect = 0; dc.kd = "";
+        dc.vfsFiles = {{"/v/x.dtd", "<!ENTITY % p \"<!ELEMENT r ANY>\">%p;\n"}};
         VC.push_back(dc);
     }
     // ---- standalone="yes" matrix (section 2.9, VC Standalone Document Declaration)
-    struct Scn { const char* name; const char* decl; const char* body; bool triggers; int expectWhenTriggered; };
+    struct Scn { const char* name; const char* decl; const char* body; bool triggers; int expectWhenTriggered; const char* kd = nullptr; };
     static const Scn scn[] = {
         {"default-attr-absent", "<!ATTLIST e x CDATA \"dv\">", "<r><e/></r>", true, 1},
         {"default-attr-present", "<!ATTLIST e x CDATA \"dv\">", "<r><e x=\"v\"/></r>", false, 0},
         {"fixed-attr-absent", "<!ATTLIST e x CDATA #FIXED \"dv\">", "<r><e/></r>", true, 1},
         {"implied-attr-absent", "<!ATTLIST e x CDATA #IMPLIED>", "<r><e/></r>", false, 0},
         {"tokenized-attr-normalisation-changes", "<!ATTLIST e x NMTOKEN #IMPLIED>", "<r><e x=\" a1 \"/></r>", true, 1},
-        {"tokenized-attr-normalisation-changes-inner", "<!ATTLIST e x NMTOKENS #IMPLIED>", "<r><e x=\"a1  b1\"/></r>", true, 1},
+        {"tokenized-attr-normalisation-changes-inner", "<!ATTLIST e x NMTOKENS #IMPLIED>", "<r><e x=\"a1  b1\"/></r>", true, 1, KD6},
+        {"tokenized-attr-normalisation-changes-trailing", "<!ATTLIST e x NMTOKEN #IMPLIED>", "<r><e x=\"a1 \"/></r>", true, 1, KD6},
+        {"tokenized-attr-normalisation-changes-leading-only", "<!ATTLIST e x IDREFS #IMPLIED i ID #IMPLIED>", "<r><e i=\"k\" x=\" k\"/></r>", true, 1},
+        {"tokenized-attr-tab-becomes-space-as-for-cdata", "<!ATTLIST e x NMTOKENS #IMPLIED>", "<r><e x=\"a1\tb1\"/></r>", false, 0},
         {"tokenized-attr-normalisation-same", "<!ATTLIST e x NMTOKENS #IMPLIED>", "<r><e x=\"a1 b1\"/></r>", false, 0},
         {"cdata-attr-with-spaces", "<!ATTLIST e x CDATA #IMPLIED>", "<r><e x=\" a1 \"/></r>", false, 0},
         {"ws-in-element-content", "<!ELEMENT w (a*)>", "<r><w> <a/></w></r>", true, 1},
@@ -784,6 +887,7 @@ static void init_vc() {
                 dc.body = s.body;
                 bool trig = s.triggers && !strcmp(sa, "yes") && where != 0;
                 dc.expect = trig ? s.expectWhenTriggered : 0;
+                if (trig && s.kd) dc.kd = s.kd;
                 static const char* wn[] = {"internal", "external-subset", "external-PE", "external-INCLUDE"};
                 dc.label = std::string("standalone=") + (*sa ? sa : "absent") + " decl-in=" + wn[where] + " " + s.name;
                 VC.push_back(dc);
@@ -801,12 +905,16 @@ int main(int argc, char** argv) {
     xml_init();
     Runner R;
     R.name = space;
-    g_placemask = (unsigned)a.num("placemask", 0x7f);
+    g_placemask = (unsigned)strtoul(a.str("placemask", "0x7f").c_str(), nullptr, 0);
     g_onoff = a.num("onoff", 1) != 0;
+    g_dumpViol = a.str("dump-viol", "");
+    g_strict = a.num("strict", 0) != 0;
+    g_placerotate = a.num("placerotate", 0) != 0;
     if (space == "cm" || space == "place") {
         g_k = (int)a.num("k", 3);
         g_alpha = (int)a.num("alpha", 8);
-        g_cfgmask = (unsigned)a.num("cfgmask", 0xff);
+        g_cfgmask = (unsigned)strtoul(a.str("cfgmask", "0xff").c_str(), nullptr, 0);
+        g_cfgrotate = a.num("cfgrotate", 0) != 0;
         bool canonical = a.str("naming", "canonical") == "canonical";
         if (a.num("specials", 1)) add_specials();
         add_children_models((int)a.num("minleaves", 1), (int)a.num("maxleaves", 2), canonical, a.num("wrap", 1) != 0, (int)a.num("maxsufs", -1));
@@ -827,15 +935,17 @@ int main(int argc, char** argv) {
         R.describe = [](uint64_t i) { return "{\"case\":" + std::to_string(i) + "}"; };
         R.extra_json = "\"alphabet\":" + std::to_string(NXTOK) + ",\"k\":" + std::to_string(g_xk);
     } else if (space == "attr") {
+        init_attr(a.str("defaults", "all") == "quick");
         R.total = attr_total();
         R.fn = run_attr;
         R.describe = [](uint64_t i) { std::string l; attr_case(i, l); return "{\"case\":" + jstr(l) + "}"; };
-        R.extra_json = "\"alphabet\":" + std::to_string(NAVAL);
+        R.extra_json = "\"alphabet\":" + std::to_string(NAVAL) + ",\"bounds\":" + jstr("10 types x (2+2*" + std::to_string(DVS.size()) + ") defaults x (1+" + std::to_string(NAVAL) + ") presence/value");
     } else if (space == "idref") {
         g_maxElems = (int)a.num("elems", 3);
         bool big = a.num("big", 0) != 0;
         ID_OPTS = {"", "i1", "i2"}; if (big) ID_OPTS.push_back("i3");
         REF_OPTS = {"", "i1", "i2", "i3"};
+        if (a.num("small", 0)) REF_OPTS = {"", "i1", "i3"};
         REFS_OPTS = {"", "i1 i2"}; if (big) { REFS_OPTS.push_back("i3 i3"); REFS_OPTS.push_back("i2 i9"); }
         R.total = idref_total();
         R.fn = run_idref;
